@@ -36,6 +36,7 @@ type guardsAn struct {
 	writes       map[*types.Func]bool
 	mints        map[*types.Func]bool
 	price        map[*types.Func]bool // transitively reaches a price call
+	ctl          map[*types.Func]bool // transitively reads the circuit breaker / ESM status
 	callees      map[*types.Func][]*types.Func
 }
 
@@ -49,7 +50,7 @@ func guardsAnalysis(c *corpus) *guardsAn {
 		return guardsShared
 	}
 	an := &guardsAn{c: c, decls: map[*types.Func]guardsDecl{}, keeperByName: map[string][]*types.Func{},
-		writes: map[*types.Func]bool{}, mints: map[*types.Func]bool{}, price: map[*types.Func]bool{}, callees: map[*types.Func][]*types.Func{}}
+		writes: map[*types.Func]bool{}, mints: map[*types.Func]bool{}, price: map[*types.Func]bool{}, ctl: map[*types.Func]bool{}, callees: map[*types.Func][]*types.Func{}}
 	for _, p := range c.all {
 		for _, f := range p.Syntax {
 			for _, d := range f.Decls {
@@ -81,6 +82,16 @@ func guardsAnalysis(c *corpus) *guardsAn {
 	for fn, d := range an.decls {
 		seen := map[*types.Func]bool{}
 		ast.Inspect(d.decl.Body, func(n ast.Node) bool {
+			if sel, ok := n.(*ast.SelectorExpr); ok {
+				if sel.Sel.Name == "BreakerEnable" {
+					an.ctl[fn] = true
+				}
+				if sel.Sel.Name == "Status" {
+					if t := d.pkg.TypesInfo.TypeOf(sel.X); t != nil && strings.HasSuffix(t.String(), "ESMStatus") {
+						an.ctl[fn] = true
+					}
+				}
+			}
 			call, ok := n.(*ast.CallExpr)
 			if !ok {
 				return true
@@ -109,7 +120,7 @@ func guardsAnalysis(c *corpus) *guardsAn {
 			an.price[fn] = true
 		}
 	}
-	for _, m := range []map[*types.Func]bool{an.writes, an.mints, an.price} {
+	for _, m := range []map[*types.Func]bool{an.writes, an.mints, an.price, an.ctl} {
 		for changed := true; changed; {
 			changed = false
 			for fn, cs := range an.callees {
@@ -307,6 +318,7 @@ type guardsEnv struct {
 	module  string
 	helper  bool
 	stop    bool
+	ctlOpq  *bool // set when a writing call that is not walked into reads the breaker / ESM status itself
 }
 
 const guardsMaxDepth = 5
@@ -519,6 +531,13 @@ func (e *guardsEnv) anySignerArg(c *ast.CallExpr) bool {
 func (e *guardsEnv) writeItem(calls []*ast.CallExpr, prefix string) string {
 	all := true
 	for _, c := range calls {
+		if e.ctlOpq != nil {
+			for _, cal := range e.an.calleesOf(e.pkg, c) {
+				if e.an.ctl[cal] {
+					*e.ctlOpq = true
+				}
+			}
+		}
 		if !e.anySignerArg(c) {
 			all = false
 		}
@@ -927,7 +946,7 @@ func (e *guardsEnv) inline(fn *types.Func, d guardsDecl, call *ast.CallExpr, lhs
 // so the helper's remaining checks do not dominate what follows in the caller: the walk of the
 // helper stops there.
 func (e *guardsEnv) inlineAs(fn *types.Func, d guardsDecl, call *ast.CallExpr, lhs []ast.Expr, helper bool) {
-	sub := &guardsEnv{helper: helper || e.helper, an: e.an, pkg: d.pkg, subst: map[types.Object]string{}, structs: map[types.Object]map[string]string{}, found: map[types.Object]guardsLookup{},
+	sub := &guardsEnv{helper: helper || e.helper, ctlOpq: e.ctlOpq, an: e.an, pkg: d.pkg, subst: map[types.Object]string{}, structs: map[types.Object]map[string]string{}, found: map[types.Object]guardsLookup{},
 		esmVars: map[types.Object]bool{}, brkVars: map[types.Object]string{}, signer: e.signer, sfield: e.sfield,
 		depth: e.depth + 1, stack: e.stack, items: e.items, helpers: e.helpers, curDecl: d.decl, module: e.module}
 	i := 0
@@ -1004,7 +1023,7 @@ func (e *guardsEnv) subRow(fn *types.Func, d guardsDecl, call *ast.CallExpr) str
 	}
 	var items []string
 	e.helpers[key] = nil
-	sub := &guardsEnv{an: e.an, pkg: e.pkg, subst: e.subst, structs: e.structs, found: e.found, esmVars: e.esmVars, brkVars: e.brkVars,
+	sub := &guardsEnv{ctlOpq: e.ctlOpq, an: e.an, pkg: e.pkg, subst: e.subst, structs: e.structs, found: e.found, esmVars: e.esmVars, brkVars: e.brkVars,
 		signer: e.signer, sfield: e.sfield, depth: e.depth, stack: e.stack, items: &items, helpers: e.helpers,
 		curDecl: e.curDecl, module: e.module}
 	sub.inlineAs(fn, d, call, nil, false)
@@ -1261,8 +1280,9 @@ func init() {
 		hs := guardsMsgServerMethods(c)
 		for i, h := range hs {
 			var items []string
+			ctlOpq := false
 			sf := signers[h.module+"."+h.msgType]
-			env := &guardsEnv{an: an, pkg: h.pkg, subst: map[types.Object]string{}, structs: map[types.Object]map[string]string{}, found: map[types.Object]guardsLookup{},
+			env := &guardsEnv{ctlOpq: &ctlOpq, an: an, pkg: h.pkg, subst: map[types.Object]string{}, structs: map[types.Object]map[string]string{}, found: map[types.Object]guardsLookup{},
 				esmVars: map[types.Object]bool{}, brkVars: map[types.Object]string{}, depth: 0, stack: map[*types.Func]bool{h.fn: true},
 				items: &items, helpers: helpers, curDecl: h.decl, module: h.module, sfield: sf}
 			if sf != "" {
@@ -1283,8 +1303,8 @@ func init() {
 			if i == len(hs)-1 {
 				sep = ""
 			}
-			fmt.Fprintf(&b, "  mkHandler %s %s %s %v\n    %s\n    %s%s\n", coqString(h.module), coqString(h.module+"."+h.decl.Name.Name),
-				coqString(h.msgType), an.mints[h.fn], guardsList(items, "     "), guardsList(pus, "     "), sep)
+			fmt.Fprintf(&b, "  mkHandler %s %s %s %v %v\n    %s\n    %s%s\n", coqString(h.module), coqString(h.module+"."+h.decl.Name.Name),
+				coqString(h.msgType), an.mints[h.fn], ctlOpq, guardsList(items, "     "), guardsList(pus, "     "), sep)
 		}
 		b.WriteString("].\n\n")
 		// helper rows: functions an early successful return delegates to
